@@ -247,7 +247,7 @@ def e2e_cases(pid, tier, rng):
             bss = sorted(set(bss))
             if len(bss) > 10:
                 bss = sorted(rng.sample(bss, 10) + [65536])
-        conts = ["plain"] + ([rng.choice(CONTAINERS[1:])] if tier == "quick" else CONTAINERS[1:])
+        conts = ["plain"] + ([CONTAINERS[1 + fi % (len(CONTAINERS) - 1)]] if tier == "quick" else CONTAINERS[1:])
         for B in sorted(set(bss)):
             for cont in conts:
                 name = "f%d.log" % fi
@@ -271,8 +271,20 @@ def e2e_cases(pid, tier, rng):
                 # (escape sequences removed before comparing)
                 colour = rng.choice(["never", "never", "never", "auto", "always"])
                 copt = {"never": ["--color", "never"], "auto": [], "always": ["--color", "always"]}[colour]
-                case = Case(files, copt + ["--blocksz", str(B), argv], lay.printed(),
-                            note={"blocksz": B, "container": cont, "file": fi, "colour": colour}, timeout=60)
+                exp_out, wopt = lay.printed(), []
+                if lay.tslen == 19 and rng.random() < 0.3:
+                    # under a window as well (ISO notation: the head of a dated line is a valid --dt-after value): from the
+                    # first message at or after that instant to the end, at every block size, plain (searched) or streamed
+                    dl = [i for i in range(len(lay.lines)) if lay.dated[i]]
+                    j = rng.choice(dl)
+                    A = lay.lines[j][:19]
+                    first = next(i for i in dl if lay.lines[i][:19] >= A)
+                    exp_out = lay.data[lay.beg[first]:]
+                    if not exp_out.endswith(b"\n"):
+                        exp_out += b"\n"
+                    wopt = ["-a", A.decode()]
+                case = Case(files, copt + wopt + ["--blocksz", str(B), argv], exp_out,
+                            note={"blocksz": B, "container": cont, "file": fi, "colour": colour, "window": wopt}, timeout=60)
                 cases.append((case, lay, B, cont))
     # boundary family: the first message(s) end exactly on a block end, a multi-block line starts the next block
     for B in ([64, 100, 128] if tier == "quick" else [64, 65, 100, 128, 200, 256, 1000, 4096, 8096, 9000]):
